@@ -49,7 +49,9 @@ class Ctx:
         self.records = 0
         self.events = 0
         self.nontrivial = set()
-        self.failures = []      # dicts: id, clause, (module)
+        self.failures = []
+        self.drift_clauses = set()
+        self.drift_prefixes = ()      # dicts: id, clause, (module)
         self.samples = []
         self.clause_counts = {}
         self.behaviours = 0
@@ -228,8 +230,11 @@ class Ctx:
         if os.path.exists(kf_path):
             with open(kf_path) as f:
                 known = [k for k in json.load(f).get("findings", []) if k["property"] == self.pid]
-        new, seen_known = [], {}
+        new, seen_known, drift = [], {}, {}
         for fl in self.failures:
+            if fl["clause"] in self.drift_clauses or any(fl["clause"].startswith(pfx) for pfx in self.drift_prefixes):
+                drift.setdefault(fl["clause"], []).append(fl["id"])
+                continue
             hit = None
             for k in known:
                 if fnmatch.fnmatchcase(fl["id"], k["id"]) and fl["clause"] == k["clause"]:
@@ -241,6 +246,11 @@ class Ctx:
                 new.append(fl)
         for (kid, kcl), k in sorted(seen_known.items()):
             print("KNOWN-FINDING: property=%s case=%s clause=%s %s" % (self.pid, kid, kcl, k.get("summary", "")))
+        # the implementation no longer follows the specification in a respect the property itself does not state: reported, not a violation
+        for c, ids in sorted(drift.items()):
+            print("SPEC-DRIFT: property=%s clause=%s records=%d e.g. %s (the code deviates from the specification module in a respect "
+                  "the property does not state; bring the specification up to date)" % (self.pid, c, len(ids), ids[0]))
+        self.extra["spec_drift"] = {c: len(ids) for c, ids in drift.items()}
         rc = 0
         replay_path = None
         if new:
